@@ -389,7 +389,7 @@ class LazyOps:
 
 
 def run_history_lazy(run, case, arr, mode, stamped, lazy):
-    real = gen.make_evo(arr, mode, stamped)
+    real = gen.make_evo(arr, mode, stamped, flavour=gen.rand_flavour(lazy.rng))
     sh = ShadowTrajectory(arr["R"], arr["p"], arr["t"] if stamped else None)
     state = {"projected": False, "parents": []}
     step, opname = 0, "init"
